@@ -54,15 +54,54 @@ def body_walk(func: FuncNode) -> Iterator[ast.AST]:
         yield from walk_no_nested(st, enter_root=False)
 
 
+def _const_rank(e: ast.AST) -> int:
+    if isinstance(e, ast.Constant):
+        return 3
+    d = e
+    while isinstance(d, ast.Attribute):
+        d = d.value
+    if isinstance(d, ast.Name) and (d.id.isupper() or (isinstance(e, ast.Attribute) and d.id[:1].isupper() and e.attr.isupper())):
+        return 2  # ALL_CAPS constant or Enum member
+    return 1
+
+
 def _canonicalise(tree: ast.AST) -> None:
     """Normal form for behaviour-preserving spellings, applied to every module before any rule sees it, so that both
-    spellings give the rules the same tree:  `if not C: A else: B`  ->  `if C: B else: A`  (only for a real else branch,
-    never for an elif chain). Line numbers of the moved statements are kept (they are for humans)."""
+    spellings give the rules the same tree (line numbers of moved statements are kept; they are for humans):
+      `if not C: A else: B`        ->  `if C: B else: A`   (a real else branch only, never an elif chain)
+      `CONST == x` / `CONST != x`  ->  `x == CONST`        (the more constant operand goes to the right)
+      `t = E; return t`            ->  `return E`          (t stored once, loaded once, in adjacent statements)"""
     for n in ast.walk(tree):
         if isinstance(n, ast.If) and n.orelse and not (len(n.orelse) == 1 and isinstance(n.orelse[0], ast.If)) \
                 and isinstance(n.test, ast.UnaryOp) and isinstance(n.test.op, ast.Not):
             n.test = n.test.operand
             n.body, n.orelse = n.orelse, n.body
+        elif isinstance(n, ast.Compare) and len(n.ops) == 1 and isinstance(n.ops[0], (ast.Eq, ast.NotEq)) and _const_rank(n.left) > _const_rank(n.comparators[0]):
+            n.left, n.comparators = n.comparators[0], [n.left]
+    for fn in [x for x in ast.walk(tree) if isinstance(x, (ast.FunctionDef, ast.AsyncFunctionDef))]:
+        stores: Dict[str, int] = {}
+        loads: Dict[str, int] = {}
+        for x in ast.walk(fn):
+            if isinstance(x, ast.Name):
+                d = stores if isinstance(x.ctx, (ast.Store, ast.Del)) else loads
+                d[x.id] = d.get(x.id, 0) + 1
+            elif isinstance(x, (ast.Global, ast.Nonlocal)):
+                for nm in x.names:
+                    stores[nm] = stores.get(nm, 0) + 2
+        for par in ast.walk(fn):
+            for fld in ("body", "orelse", "finalbody"):
+                blk = getattr(par, fld, None)
+                if not isinstance(blk, list):
+                    continue
+                i = 1
+                while i < len(blk):
+                    a, r = blk[i - 1], blk[i]
+                    if isinstance(r, ast.Return) and isinstance(r.value, ast.Name) and isinstance(a, ast.Assign) and len(a.targets) == 1 and isinstance(a.targets[0], ast.Name) \
+                            and a.targets[0].id == r.value.id and stores.get(r.value.id) == 1 and loads.get(r.value.id) == 1:
+                        r.value = a.value
+                        del blk[i - 1]
+                        continue
+                    i += 1
 
 
 class Module:
